@@ -76,7 +76,7 @@ def run17(prop, tier, seed, work):
         for s in names:
             vs = list(U.struct_variants(s, uf, [0, 1, 2], [0, 1, 5]))
             rng.shuffle(vs)
-            for (lbl, v) in vs[: (4 if quick else 12)]:
+            for (lbl, v) in vs[: (4 if quick else 40)]:
                 k += 1
                 steps = []
 
@@ -137,11 +137,11 @@ def run18(prop, tier, seed, work):
     tops = [s for s in sorted(um.keys()) if not s.startswith(("Leaf_", "Fix_"))]
     batches.append(Batch("containers", um, scen_for(um, tops, sizes, [0, 1]), env={"GOMAXPROCS": "1"}))
     if not quick:
-        for i in range(3):
+        for i in range(8):
             ur = U.rand_universe(rng, nstructs=14)
             sc = []
             names = sorted(ur.keys())
-            for j in range(800):
+            for j in range(2500):
                 s = rng.choice(names)
                 v = U.rand_value({"k": "struct", "ptr": False, "s": s}, ur, rng, 4, 5)
                 sid = "C18-rnd%d-%s-%d" % (i, s, j)
